@@ -27,6 +27,19 @@ import (
 
 func batches(tier string) int { return 16 }
 
+// viol emits the first violation of every class in this batch (the driver keeps one witness
+// per class; the per-batch cap of the protocol must not hide later, different classes).
+var emitted = map[string]bool{}
+
+func viol(c *run.Ctx, class, msg string, wit interface{}) {
+	if emitted[class] {
+		c.Stat("violations_repeated", 1)
+		return
+	}
+	emitted[class] = true
+	c.Violation(class, msg, wit)
+}
+
 // ---------------------------------------------------------------------------------------
 // monitor 1: direct driver
 
@@ -57,13 +70,44 @@ type env struct {
 	ids   []common.Hash
 	uni   *fx.Universe
 	// control of the final check: Obs and log digest of "snapshot; touch; Finalise" on a fresh manager
-	ctlObs  fx.Obs
-	ctlLogs string
-	prist   fx.Obs
+	ctlObs    fx.Obs
+	ctlLogs   string
+	prist     fx.Obs
+	pristFull fx.Obs // with version records: what a fresh manager at the head must always observe
+	shrunk    map[string]bool
+}
+
+// checkPristine: whatever a dropped manager did (reverted or not, finalised or not, never
+// saved) must be invisible to a fresh manager at the same parent.
+func (e *env) checkPristine(c *run.Ctx, wit interface{}) {
+	now := fx.Observe(account.NewManager(e.b.Head.Hash(), e.b.N.DB), e.uni, fx.ObsOpts{Roots: true, Versions: true})
+	c.Stat("fresh_view_checks", 1)
+	d := fx.Diff(e.pristFull, now, 6)
+	if len(d) == 0 {
+		return
+	}
+	seen := map[string]bool{}
+	for _, l := range d {
+		k := evmmon.FieldKind(evmmon.DiffField(l))
+		if !seen[k] {
+			seen[k] = true
+			viol(c, "C07/discard-leaks-into-parent-view:"+k, "a manager that was dropped without Save changed what a fresh manager at the same parent observes: "+l, wit)
+		}
+	}
+	// re-base so that one leak is reported once
+	e.pristFull = now
+	am := account.NewManager(e.b.Head.Hash(), e.b.N.DB)
+	e.prist = fx.Observe(am, e.uni, fx.ObsOpts{Roots: true})
+	am = account.NewManager(e.b.Head.Hash(), e.b.N.DB)
+	am.Snapshot()
+	e.touch(am)
+	_ = am.Finalise()
+	e.ctlObs = fx.Observe(am, e.uni, fx.ObsOpts{Roots: true})
+	e.ctlLogs = logList(am.GetChangeLogs())
 }
 
 func newEnv(b *evmmon.Base) *env {
-	e := &env{b: b}
+	e := &env{b: b, shrunk: map[string]bool{}}
 	e.addrs = []common.Address{b.Zoo["store"], b.Zoo["store-kill-load"], b.Issuer.Addr, b.Holder.Addr, b.Candidate.Addr, b.Fresh}
 	e.keys = []common.Hash{fx.HashU(1), fx.HashU(2), fx.HashU(3), fx.HashU(5)}
 	e.codes = b.Codes
@@ -76,6 +120,7 @@ func newEnv(b *evmmon.Base) *env {
 	e.uni.AssetID(e.ids...)
 	am := account.NewManager(b.Head.Hash(), b.N.DB)
 	e.prist = fx.Observe(am, e.uni, fx.ObsOpts{Roots: true})
+	e.pristFull = fx.Observe(account.NewManager(b.Head.Hash(), b.N.DB), e.uni, fx.ObsOpts{Roots: true, Versions: true})
 	am = account.NewManager(b.Head.Hash(), b.N.DB)
 	am.Snapshot()
 	e.touch(am)
@@ -130,7 +175,16 @@ func (e *env) pre(am *account.Manager, o Op) bool {
 	switch o.K {
 	case "code":
 		// contract creation: evm.Create refuses a non-empty account (IsEmpty looks at the saved version records)
-		return !hasCode() && !acc.GetSuicide() && acc.IsEmpty()
+		// (contract addresses are never addresses of key holders, so no asset / candidate / vote / signer attributes)
+		if hasCode() || acc.GetSuicide() || !acc.IsEmpty() || len(acc.GetCandidate()) > 0 || len(acc.GetSigners()) > 0 || acc.GetVotes().Sign() != 0 || acc.GetVoteFor() != (common.Address{}) {
+			return false
+		}
+		for _, cd := range e.codes {
+			if _, err := acc.GetAssetCode(cd); err != types.ErrAssetNotExist {
+				return false
+			}
+		}
+		return true
 	case "kill":
 		return hasCode() && !acc.GetSuicide()
 	case "sto":
@@ -142,7 +196,10 @@ func (e *env) pre(am *account.Manager, o Op) bool {
 	case "asset":
 		_, err := acc.GetAssetCode(e.codes[o.B%len(e.codes)])
 		return eoa && err == types.ErrAssetNotExist // CreateAssetTx always creates a new code
-	case "cand", "candstate", "signers", "votes", "votefor":
+	case "candstate":
+		// the system writes single profile keys only on registered candidates (unregister, refund)
+		return eoa && len(acc.GetCandidate()) > 0
+	case "cand", "signers", "votes", "votefor":
 		return eoa // candidate / vote / multisig transactions are sent by externally owned accounts
 	}
 	return true
@@ -370,7 +427,7 @@ func (e *env) runSeq(s *Seq) (viols []dviol, st *seqStats) {
 			}
 			add("undo-leaves-dirty-entry:"+what, "everything was reverted, yet after Finalise (with one unrelated balance change per account) "+d+" (control = never applied)")
 		}
-		if ll := logList(am.GetChangeLogs()); ll != e.ctlLogs {
+		if ll := logList(am.GetChangeLogs()); ll != e.ctlLogs && len(viols) == 0 {
 			add("undo-leaves-dirty-entry:change-logs", fmt.Sprintf("change logs after full revert + Finalise differ from never having applied anything: %s vs %s", ll, e.ctlLogs))
 		}
 	}
@@ -426,6 +483,9 @@ func (e *env) genSeq(r *run.Rng, n int) *Seq {
 	}
 	push(Op{K: "snap", B: nextLabel})
 	nextLabel++
+	// the known self-destruct defect ends the judged part of a sequence at the first reverted kill:
+	// most sequences stay free of kills so that everything else is explored at full length
+	withKill := r.Chance(3, 10)
 	vals := []string{"nil", "", "00", "01", "2a", "0000ff", "ffffffffffffffffffffffffffffffffffffffffffffffffffffffffffffffff", "00000000000000000000000000000000000000000000000000000000000000aa"}
 	for len(s.Ops) < n {
 		var o Op
@@ -471,6 +531,9 @@ func (e *env) genSeq(r *run.Rng, n int) *Seq {
 		case pick < 55:
 			o.K, o.V = "code", fmt.Sprintf("60%02x600055", r.Intn(256))
 		case pick < 62:
+			if !withKill {
+				continue
+			}
 			o.K = "kill"
 		case pick < 66:
 			o.K, o.B = "votefor", r.Intn(len(e.addrs))
@@ -565,11 +628,13 @@ func (e *env) checkSeq(c *run.Ctx, s *Seq, doShrink bool) {
 	c.Seen("max_nesting", fmt.Sprint(st.maxNest))
 	for _, v := range vs {
 		w := s
-		if doShrink {
+		if doShrink && !e.shrunk[v.class] {
+			e.shrunk[v.class] = true
 			w = e.shrink(s, v.class)
 		}
-		c.Violation("C07/"+v.class, fmt.Sprintf("%s [minimal sequence: %s]", v.msg, render(w)), w)
+		viol(c, "C07/"+v.class, fmt.Sprintf("%s [minimal sequence: %s]", v.msg, render(w)), w)
 	}
+	e.checkPristine(c, s)
 	shape := st.shape.String()
 	c.Case("direct "+shape, st.reverts >= 2 && st.maxNest >= 2 && len(st.kinds) >= 4, map[string]interface{}{"monitor": "direct", "ops": len(s.Ops), "setters": st.ops, "snapshots": st.snaps, "reverts": st.reverts, "maxNesting": st.maxNest, "shape": shape})
 }
@@ -633,7 +698,7 @@ func checkEVM(c *run.Ctx, b *evmmon.Base, e *env, cs *evmmon.Case) {
 	c.Stat("evm_revision_ids_leaked_by_evm", res.Px.Leaked)
 	wit := map[string]interface{}{"Monitor": "evm", "Case": cs}
 	if res.Abort != nil {
-		c.Violation("C07/crash:revert-panics:"+evmmon.PanicMechanism(res.Abort), fmt.Sprintf("RevertToSnapshot issued by the EVM panicked: %s @%s while undoing %v -- %s", res.Abort.Panic, res.Abort.PanicSite, typesOf(res.Abort.Undone), cs.String()), wit)
+		viol(c, "C07/crash:revert-panics:"+evmmon.PanicMechanism(res.Abort), fmt.Sprintf("RevertToSnapshot issued by the EVM panicked: %s @%s while undoing %v -- %s", res.Abort.Panic, res.Abort.PanicSite, typesOf(res.Abort.Undone), cs.String()), wit)
 	}
 	if res.Panic != "" {
 		// not a journal matter (C16 reports EVM panics); noted for the evidence only
@@ -648,9 +713,10 @@ func checkEVM(c *run.Ctx, b *evmmon.Base, e *env, cs *evmmon.Case) {
 			prist = fx.Observe(account.NewManager(b.Head.Hash(), b.N.DB), res.Px.U.U, fx.ObsOpts{Roots: true})
 		}
 		for cls, d := range evmmon.RevertClasses(rep, prist) {
-			c.Violation("C07/"+cls, fmt.Sprintf("RevertToSnapshot issued by the EVM (nesting %d, undone %v): %s -- %s", rep.Live, typesOf(rep.Undone), d, cs.String()), wit)
+			viol(c, "C07/"+cls, fmt.Sprintf("RevertToSnapshot issued by the EVM (nesting %d, undone %v): %s -- %s", rep.Live, typesOf(rep.Undone), d, cs.String()), wit)
 		}
 	}
+	e.checkPristine(c, wit)
 	kind := cs.Kind
 	c.Case(fmt.Sprintf("evm %s %s snaps=%d reverts=%d live=%d", kind, cs.Entry, res.Px.NSnap, res.Px.NRevert, res.Px.MaxLive), res.Px.NRevert > 0 && res.Px.MaxLive >= 2,
 		map[string]interface{}{"monitor": "evm", "case": cs.String(), "snapshots": res.Px.NSnap, "reverts": res.Px.NRevert, "maxLive": res.Px.MaxLive})
@@ -689,11 +755,11 @@ func checkRedo(c *run.Ctx, n *fx.Node, u *fx.Universe, blk *types.Block, wit int
 		c.Seen("redo_log_types", l.LogType.String())
 	}
 	if perr != "" {
-		c.Violation("C07/crash:redo-panics:"+evmmon.Slug(perr), fmt.Sprintf("RebuildAll panicked: %s @%s", perr, site), wit)
+		viol(c, "C07/crash:redo-panics:"+evmmon.Slug(perr), fmt.Sprintf("RebuildAll panicked: %s @%s", perr, site), wit)
 		return
 	}
 	if err != nil {
-		c.Violation("C07/redo-fails:"+evmmon.Slug(err.Error()), "RebuildAll returned "+err.Error(), wit)
+		viol(c, "C07/redo-fails:"+evmmon.Slug(err.Error()), "RebuildAll returned "+err.Error(), wit)
 		return
 	}
 	redo := dropSuicide(fx.Observe(am, u, fx.ObsOpts{}))
@@ -726,7 +792,7 @@ func checkRedo(c *run.Ctx, n *fx.Node, u *fx.Universe, blk *types.Block, wit int
 		}
 		if !seen[cls] {
 			seen[cls] = true
-			c.Violation("C07/"+cls, fmt.Sprintf("block %d: executed vs redo of its published change logs: %s", blk.Height(), d), wit)
+			viol(c, "C07/"+cls, fmt.Sprintf("block %d: executed vs redo of its published change logs: %s", blk.Height(), d), wit)
 		}
 	}
 }
@@ -812,10 +878,28 @@ func fixedRedo(c *run.Ctx, b *evmmon.Base) {
 	}
 	g.U.Block(res.Block)
 	g.U.StorageKey(b.Keys...)
+	if os.Getenv("C07_DEBUG") != "" {
+		fmt.Fprintf(os.Stderr, "fixed redo: included %d of %d\n", len(res.Block.Txs), len(cands))
+		for _, l := range res.Block.ChangeLogs {
+			fmt.Fprintf(os.Stderr, "  %s\n", l.String())
+		}
+	}
 	checkRedo(c, b.N, g.U, res.Block, wit)
 	c.Case("redo fixed suicide-then-credit", true, map[string]interface{}{"monitor": "redo", "fixed": "suicide-then-credit", "included": len(res.Block.Txs)})
 	cl.Adopt(res.Block)
 	cl.StabiliseAll()
+	// consequence probe (noted, not judged here: acceptance of honest blocks is C01's property): a block that
+	// contains the double-create-revert call
+	t = cl.NextTime()
+	cands = []scn.Cand{g.C(g.B.Call(u[8], b.Zoo["double-create-revert"], big.NewInt(0), 900000, nil, uint64(t)+900), "call-double-create-revert", "ok")}
+	if res, err := b.N.Mine(cl.Head, t, scn.Txs(cands), ""); err == nil {
+		if errs := cl.InsertAll(res.Block); errs[0] != nil {
+			c.Note(fmt.Sprintf("consequence of C07/revert-differs:code:after-code: the honest miner's block with %d tx calling the double-create-revert contract is rejected by the node: %v", len(res.Block.Txs), errs[0]))
+			c.Stat("double_create_block_rejected", 1)
+		} else {
+			cl.Adopt(res.Block)
+		}
+	}
 }
 
 // ---------------------------------------------------------------------------------------
